@@ -49,7 +49,10 @@ def _is_psd(D):
         w = torch.linalg.eigvalsh(Dd)
     except Exception:
         return False
-    return bool((w[..., 0] > 1e-7 * w[..., -1].clamp_min(1e-300)).all())
+    # "PSD" for the world means positive definite with condition number below 5e3 (the recipes promise <= 1e3; derived
+    # operators such as singular + 1e-3 jitter can be far worse and make every inverse functional and every low-rank /
+    # concatenation update numerically meaningless)
+    return bool((w[..., 0] > 2e-4 * w[..., -1].clamp_min(1e-300)).all())
 
 
 class World:
@@ -77,6 +80,7 @@ class World:
         self.parent_roots_after_derive = {}
         self.qlog = {}
         self._keepalive = []
+        self.fresh_parent_entry_errs = {}
 
     # ------------------------------------------------------------------------------------------ util
     def stat(self, k, n=1):
@@ -310,6 +314,10 @@ class World:
                         # the entry was written (as result or side effect) by a query whose own answer was just as inexact on
                         # its fresh twin: the library computes garbage for this operator with or without history
                         direct_inexact = (w[5] > 1e-4 or w[5] != w[5]) and (w[4] <= max(30 * w[5], 1e-2) or w[4] == w[5] or (w[4] != w[4] and w[5] != w[5]))
+                    if len(w) >= 3 and w[1] == "derive" and p == ".":
+                        fe = self.fresh_parent_entry_errs.get((w[0], n))
+                        if fe is not None and fe[0] > 1e-4:
+                            direct_inexact = True  # the derivation leaves an equally inexact entry on a fresh parent
                     rows.append({"step": i, "obj": oid, "path": p, "name": n, "writer": f"{w[1]}:{w[2]}", "direct_inexact": direct_inexact,
                                  "err": (pc_err if (n.startswith("@_") and p == ".") else world.entry_error(rec.op, p, n, fresh))})
             self.entries_by_step[i] = rows
@@ -436,10 +444,23 @@ class World:
         dense_exc = None
         D = None
         f = None
+        env_ = {}
         try:
-            f = self.rebuild(oid, {})
+            f = self.rebuild(oid, env_)
         except Exception as e:
             fresh_exc = e
+        if self.scen.get("measure_entries") and op["k"] == "derive" and env_.get(op["src"]) is not None:
+            # what did the derivation leave on a *fresh* parent (add_low_rank / cat_rows compute and cache the parent's roots)?
+            try:
+                clean_parent = self.rebuild(op["src"], {})
+                fp = env_[op["src"]]
+                for p_, n_ in world.cache_entries(fp):
+                    if p_ == ".":
+                        e_ = world.entry_error(fp, p_, n_, clean_parent)
+                        if e_ is not None:
+                            self.fresh_parent_entry_errs[(i, n_)] = e_
+            except Exception:
+                pass
         if fresh_exc is None:
             # the reference dense matrix; a class whose to_dense() fails is C01's business, the object is just unusable here
             try:
